@@ -16,7 +16,7 @@ for p in $props; do
 done
 wait
 res=$(cat $out/res_*.txt | tr '\n' ' '); rm -f $out/res_*.txt
-git -C /repo checkout -- .
+git -C /repo apply -R $out/patch.diff 2>/dev/null || git -C /repo checkout -- .; git -C /repo clean -fdq -- matchingproblems
 rm -rf /verif/evidence; mv /verif/_work/evidence_backup_$$ /verif/evidence
 echo "tests: $t_with"; echo "checks: $res"
 python3 - "$sid" "$t_with" "$res" <<'PY'
